@@ -58,8 +58,13 @@ def toMap (t : Table) : PMap := t.foldl pmInsert []
 def entryLe (a b : Entry) : Bool :=
   decide (b.power < a.power) || (decide (a.power = b.power) && decide (a.id ≤ b.id))
 
-/-- `PowerTableMapToArray`: collect in map order, `sort.Sort`. -/
-def toArray (m : PMap) : Table := m.mergeSort entryLe
+def insertEntry (e : Entry) : Table → Table
+  | [] => [e]
+  | x :: r => if entryLe e x then e :: x :: r else x :: insertEntry e r
+
+/-- `PowerTableMapToArray`: collect in map order, `sort.Sort` (an insertion sort here; with unique ids
+the order is strict and total, so every correct sort yields the same array). -/
+def toArray (m : PMap) : Table := m.foldr insertEntry []
 
 inductive DErr where
   | notSorted | emptyDelta | unchangedKey | zeroWithKey | newNonPositive | newNoKey | negative
@@ -201,6 +206,8 @@ structure Cfg where
   openFreq : Nat          -- powerTableFrequency in force *while* a store is being opened (the package
                           -- default; production: `openFreq = freq`; a test accessor lowers `freq` afterwards)
   resumeInner : Bool      -- does `open` also continue a wipe whose tombstone is inside `/certstore`?
+  lenientEOF : Bool       -- does the snapshot reader report a block cut right after its length prefix as a
+                          -- clean end of stream (`io.ReadFull` returns plain `io.EOF` when no byte was read)?
 deriving Repr
 
 /-- The configuration in force inside `OpenStore` / `OpenOrCreateStore`. -/
@@ -501,11 +508,15 @@ def truncateBlocks : List Block → Nat → Stream
       let s := truncateBlocks r (n - (b.vlen + b.blen))
       ⟨b :: s.blocks, s.tail⟩
 
-def totalSize (bs : List Block) : Nat := (bs.map Block.size).foldl (· + ·) 0
+def totalSize : List Block → Nat
+  | [] => 0
+  | b :: r => b.size + totalSize r
 
-/-- `readSnapshotBlockBytes` at the end of the complete blocks: `true` = reported as `io.EOF`. -/
-def Tail.isEOF : Tail → Bool
-  | .clean | .afterVarint => true
+/-- `readSnapshotBlockBytes` at the end of the complete blocks: `true` = reported as `io.EOF`, which the
+importer's loop takes for the end of the snapshot. -/
+def Tail.isEOF (lenient : Bool) : Tail → Bool
+  | .clean => true
+  | .afterVarint => lenient
   | _ => false
 
 structure Manifest where
@@ -520,7 +531,7 @@ structure ImpSt where
 
 /-- The certificate loop of the import, from expected instance `i`. -/
 def importLoop (cfg : Cfg) (h : Header) (tail : Tail) : Nat → ImpSt → List Block → ImpSt × Option Err
-  | _, st, [] => if tail.isEOF then (st, none) else (st, some .snapDecode)
+  | _, st, [] => if tail.isEOF cfg.lenientEOF then (st, none) else (st, some .snapDecode)
   | i, st, b :: r =>
     match b.body with
     | .cert c =>
@@ -540,6 +551,16 @@ def importLoop (cfg : Cfg) (h : Header) (tail : Tail) : Nat → ImpSt → List B
           else importLoop cfg h tail (i + 1) st r
     | _ => (st, some .snapDecode)
 
+/-- Validation of the header against the manifest, if one is supplied. -/
+def manifestCheck (mf : Option Manifest) (h : Header) : Option Err :=
+  match mf with
+  | none => none
+  | some m =>
+    if m.first ≠ h.first then some .manifestFirst
+    else match m.init with
+      | none => none
+      | some c => if c ≠ Commit.known h.init then some .manifestTable else none
+
 /-- `importSnapshotToDatastoreWithTestingPowerTableFrequency` into datastore `ds`. -/
 def importSnapshot (cfg : Cfg) (ds : DS) (o : Orders) (s : Stream) (mf : Option Manifest) : Out Unit :=
   match s.blocks with
@@ -547,13 +568,7 @@ def importSnapshot (cfg : Cfg) (ds : DS) (o : Orders) (s : Stream) (mf : Option 
   | hb :: rest =>
     match hb.body with
     | .header h =>
-      match (match mf with
-             | none => none
-             | some m =>
-               if m.first ≠ h.first then some Err.manifestFirst
-               else match m.init with
-                 | none => none
-                 | some c => if c ≠ Commit.known h.init then some Err.manifestTable else none) with
+      match manifestCheck mf h with
       | some e => ⟨[], .error e⟩
       | none =>
         let oc := openOrCreateStore cfg ds o h.first h.init
